@@ -600,7 +600,8 @@ func (c *ctx) pLayout(lines []string) string {
 	var out []string
 	junk := func() {
 		for r.Chance(0.25) {
-			out = append(out, r.Pick("", "   ", "# a comment", "  # SecRule ARGS \"@rx x\" \"id:99,deny\"", "\t", "#"))
+			out = append(out, r.Pick("", "   ", "# a comment", "  # SecRule ARGS \"@rx x\" \"id:99,deny\"", "\t", "#",
+				"# a comment that ends in a backslash \\", "# C:\\windows\\system32\\", "#\\", "  # SecRule ARGS \"@rx x\" \\  "))
 		}
 	}
 	for _, l := range lines {
